@@ -9,7 +9,7 @@ import itertools
 PROPERTY = "C11"
 LEVEL = "exploration"
 SHARDS = {"quick": 4, "thorough": 16}
-REQUIRED = ["ws-automaton", "call-model", "frame-accounting", "state-monotone", "denial-response", "overlapped-pairs"]
+REQUIRED = ["ws-automaton", "call-model", "frame-accounting", "state-monotone", "denial-response", "overlapped-pairs", "websocket_session"]
 RULE = ("Exhaustive call sequences over 15 wrapper operations (accept, accept(subprotocol), receive, receive_text, receive_bytes, one step of "
         "iter_text / iter_bytes, send_text, send_bytes, close, close(code), raw send of accept / send / close / foreign type) of length <=4 "
         "(thorough <=5) x every server script (connect; 0-3 frames text/bytes/both-keys; disconnect at every position or never), plus "
@@ -358,6 +358,86 @@ def run_scenario(ctx, calls, script_tag, events, overlap=None):
         V("frames-not-returned-exactly-once-in-order", f"served {exp!r}; returned {returned_frames!r}")
 
 
+class ViewError(Exception):
+    pass
+
+
+def automaton_problem(forwarded):
+    st = "init"
+    for m in forwarded:
+        t = m.get("type") if isinstance(m, dict) else None
+        if st == "closed":
+            return f"event-after-close:{t}"
+        if st == "init":
+            if t == "websocket.accept":
+                st = "open"
+            elif t == "websocket.close":
+                st = "closed"
+            else:
+                return f"first-event-not-accept-or-close:{t}"
+        elif t == "websocket.send":
+            pass
+        elif t == "websocket.close":
+            st = "closed"
+        else:
+            return f"illegal-event-while-open:{t}"
+    return None
+
+
+def session(ctx, calls, raises, events):
+    """the websocket_session shortcut around a view that performs `calls` (ignoring the wrapper's own refusals) and then returns or raises"""
+    from baize import asgi
+    served = [{"type": "websocket.connect"}] + [dict(e) for e in events]
+    cursor = [0]
+    forwarded = []
+
+    async def receive():
+        if cursor[0] >= len(served):
+            await Never()
+        cursor[0] += 1
+        return dict(served[cursor[0] - 1])
+
+    async def send(m):
+        forwarded.append(m)
+    done = []
+
+    async def view(ws):
+        for c in calls:
+            try:
+                if c == "accept":
+                    await ws.accept()
+                elif c == "send_text":
+                    await ws.send_text("x")
+                elif c == "close":
+                    await ws.close()
+                elif c == "close_code":
+                    await ws.close(1008)
+                elif c == "receive":
+                    await ws.receive()
+                elif c == "receive_text":
+                    await ws.receive_text()
+            except (RuntimeError, AssertionError, KeyError, asgi.WebSocketDisconnect):
+                pass
+        done.append(len(forwarded))
+        if raises:
+            raise ViewError("view failed")
+    app = asgi.websocket_session(view)
+    kind, val = step(app({"type": "websocket", "headers": [], "path": "/", "query_string": b""}, receive, send))
+    ctx.mon("websocket_session")
+    case = {"shortcut": "websocket_session", "calls": list(calls), "view_raises": raises, "script": [e["type"] for e in events]}
+    if kind == "blocked":
+        return
+    prob = automaton_problem(forwarded)
+    if prob:
+        ctx.violation(f"session|automaton|{prob.split(':')[0]}", case, repr([m.get("type") for m in forwarded]))
+    if raises and not (kind == "exc" and isinstance(val, ViewError)):
+        ctx.violation("session|view-exception-not-propagated", case, f"{kind} {val!r}")
+    if not raises and kind != "ret":
+        ctx.violation(f"session|unexpected-{kind}", case, repr(val))
+    if done and len(forwarded) != done[0]:
+        ctx.count("session-forwarded-events-after-the-view-finished(judged by the automaton)")
+
+
 def denial(ctx, rng):
     """WebsocketDenialResponse / request_response on a websocket scope"""
     from baize import asgi
@@ -445,11 +525,36 @@ def run(ctx):
     ctx.sample(f"length-{n}-sample", {"calls": calls, "script": [e["type"] for e in sample_scripts[0][1]]})
     if ctx.shard == 0:
         denial(ctx, rng)
+        scalls = ["accept", "send_text", "close", "close_code", "receive", "receive_text"]
+        for n in range(0, 4):
+            for calls in itertools.product(scalls, repeat=n):
+                for raises in (False, True):
+                    for tag, events in SCRIPTS[:6]:
+                        session(ctx, calls, raises, events)
+                        ctx.case_enum(n >= 2)
+        ctx.sample("websocket_session", {"calls": ["accept", "close", "send_text"], "view_raises": True})
+        # http scope through the websocket shortcut -> 404
+        from baize import asgi
+        from vf import drivers
+
+        async def view(ws):
+            raise AssertionError("must not run")
+        r = drivers.run_asgi(asgi.websocket_session(view), drivers.to_scope(drivers.Req()))
+        if r.status != 404:
+            ctx.violation("session|http-scope-not-404", {"shortcut": "websocket_session"}, repr(r.status))
     else:
         ctx.mon("denial-response", 0)
+        ctx.mon("websocket_session", 0)
 
 
 def replay(ctx, case):
+    if case.get("shortcut") == "websocket_session":
+        for tag, events in SCRIPTS[:6]:
+            if [e["type"] for e in events] == case["script"]:
+                session(ctx, case["calls"], case["view_raises"], events)
+                break
+        ctx.case(1)
+        return
     if "calls" not in case:
         denial(ctx, None)
         return
